@@ -53,6 +53,24 @@ CLAIMED = {
             "graph preservation, idempotence as a value-level fact, or equivalence of rewritten templates.",
             "registry/table agreement (AST constants), SSA shape check of migrate(), guard-dominance (control dependence) for nil/length/type tests, interprocedural nullable-map analysis",
             "DESIGN.md §4 C16"),
+    "C01": ("Local steps of the session state-machine invariant, decided on the SSA/AST form of the engine: status alphabet and "
+            "ownership (who may write run.status/exitedOn/session.status and with which constants); a forward must-dataflow proving "
+            "every nil-error return of the loop/resume/start functions has stored waiting/completed/failed; the waiting pairing "
+            "(single site, same block as Run.SetStatus(waiting) on the run owning the new step, under wait!=nil and Begin()); "
+            "flow-sensitive (run,step) pairing for every LogEvent/failRun site; event double-entry; path/exit ownership and exit "
+            "provenance; terminal push, failure bubbling and failed-action-stops-node. Does not perform the induction over "
+            "histories (waiting <=> exactly one waiting run, ancestors active, path is a walk for every graph).",
+            "who-may-write + forward must-dataflow over go/ssa, variable-pair typestate over go/cfg, path-sensitive typestate",
+            "DESIGN.md §4 C01"),
+    "C05": ("Structural necessary conditions of bounded sprints: the step budget (CreateStep only via visitNode only via the loop; "
+            "the visit is dominated by counter+1 > Options().MaxStepsPerSprint on the within-limit edge; the counter is 0 on entry and "
+            "only incremented; exceeding fails the run, no Go error); every path around the engine loop (all 100 enumerated, with "
+            "equality facts) spends a step or switches to the parent run; the resume budget test dominates Apply and the loop, and "
+            "countWaits' predicate accepts every wait event type; the size choke points (results, names, fields, template text on "
+            "every returning path, quick replies, attachments). Does not decide termination inside actions' services or the "
+            "library truncation functions.",
+            "dominance/guard checks and counter-monotonicity on go/ssa, exhaustive path enumeration of one loop iteration, predicate-vs-table agreement, value provenance to truncation calls",
+            "DESIGN.md §4 C05"),
 }
 
 NOT_APPLICABLE = {}
